@@ -7,3 +7,31 @@ Theorem C11_law_checker_sound :
   forall (sc : scene) (l : law), check_scene sc l = true ->
   forall p, scene_clear sc p -> eval_law l (member sc p) = true.
 Proof. exact check_scene_sound. Qed.
+
+From GB Require Import Num NumQ Event Outcome FillQueue BoolOp Cert ChainProofs.
+
+(** the composition step: C01 of the first call, C02's reading clause of its result (the next
+    call reads it by the even-odd rule) and C01 of the second call give the pointwise law
+    [op' (op a b) c] for the chained result, at every point clear of the edges involved *)
+Theorem C11_chain_law :
+  forall (N : Num) (conv : pt N -> option qpt) cfg fuel (A B C : list (FillQueue.polygon N)) (op op' : operation),
+  C01_at N conv cfg fuel A B op ->
+  (forall R, boolean_operation cfg fuel A B op = Ok R ->
+     C02_reading_at N conv cfg fuel A B op /\ C01_at N conv cfg fuel R C op') ->
+  exists R R2 a b c r r2,
+    boolean_operation cfg fuel A B op = Ok R /\ boolean_operation cfg fuel R C op' = Ok R2 /\
+    operand_rings_q N conv A = Some a /\ operand_rings_q N conv B = Some b /\
+    operand_rings_q N conv C = Some c /\ mpoly_q N conv R = Some r /\ mpoly_q N conv R2 = Some r2 /\
+    forall p, clear01 a b r p -> scene_clear (scene02 r) p -> clear01 (rings_of r) c r2 p ->
+      inside_mpoly r2 p
+      = sem_op (bop_of op') (sem_op (bop_of op) (inside_eo a p) (inside_eo b p)) (inside_eo c p).
+Proof. exact chain_law. Qed.
+
+(** the hypotheses are met by a concrete chained run with a re-used operand: (A ∪ B) \ B *)
+Example C11_chain_example :
+  exists R,
+    boolean_operation release 1000 F1_A F1_B Union = Ok R /\ length R = 2%nat /\
+    cert01_run NQ conv_Q release 1000 F1_A F1_B Union = true /\
+    cert02_run NQ conv_Q release 1000 F1_A F1_B Union = true /\
+    cert01_run NQ conv_Q release 1000 R F1_B Difference = true.
+Proof. exact chain_example. Qed.
